@@ -29,13 +29,15 @@ class Ob:
     """One obligation = one solver-decided harness function (optionally one partition of it)."""
 
     def __init__(self, function, timeout=60, pins=None, name=None, kind='crosshair',
-                 min_witness=1, need_kinds=()):
+                 min_witness=1, need_kinds=(), expect='confirmed', expect_clause=None):
         self.function = function
         self.timeout = timeout
         self.pins = dict(pins or {})
         self.kind = kind
         self.min_witness = min_witness
         self.need_kinds = tuple(need_kinds)
+        self.expect_clause = expect_clause
+        self.expect = expect          # 'counterexample' for sensitivity obligations run on an in-memory mutant
         if name is None:
             name = function
             if self.pins:
@@ -195,6 +197,15 @@ def main(argv=None):
     nrep = 0
     for ob, res in results:
         v = res['verdict']
+        if ob.expect == 'counterexample':
+            # sensitivity obligation: the machinery must REFUTE a deliberately broken in-memory variant
+            if v == 'counterexample' and (ob.expect_clause is None or (res.get('fail') or [None])[0] == ob.expect_clause):
+                discharged += 1
+            elif v == 'inconclusive':
+                inconclusive.append('%s: %s' % (ob.name, res.get('message')))
+            else:
+                harness_errors.append('%s: sensitivity check lost (verdict %s on the seeded in-memory mutant)' % (ob.name, v))
+            continue
         if v == 'confirmed':
             if res.get('witness', 0) < ob.min_witness:
                 harness_errors.append('%s: vacuous (confirmed but witness predicate reached on %d paths)'
